@@ -1133,8 +1133,13 @@ def randcap(nrand, ra, dec, rad, get_radius=False, dorot=False, rng=None):
             get_radius=True,
             rng=rng,
         )
-        rand_ra, rand_dec = rotate(0.0, dec - tdec, 0.0, rand_ra, rand_dec)
-        rand_ra, rand_dec = rotate(ra - tra, 0.0, 0.0, rand_ra, rand_dec)
+        # rotation angles in double precision whatever type the center has
+        rand_ra, rand_dec = rotate(
+            0.0, np.float64(dec) - tdec, 0.0, rand_ra, rand_dec,
+        )
+        rand_ra, rand_dec = rotate(
+            np.float64(ra) - tra, 0.0, 0.0, rand_ra, rand_dec,
+        )
     else:
 
         rand_r = rng.random(nrand)
